@@ -132,16 +132,16 @@ SYS = {
     'C02': dict(text="Lean 4 theorems, one per wake-enabling event of the property's second sentence (reply/close/error arrival, new request, cancellation, capacity returning, writability returning, completion → caller): the event sets the woken flag of the task that must act, and a task that returns Pending has registered where the model says; the global no-stuck statement is a checked def (C02NoStuckStatement), decided on every woken-only trace by the `settle` operation, which drives model and implementation only through their own wakers until quiescence and compares outcomes and stuck sets. Server side likewise (responses queued / inbound unread with nobody woken).",
         note='Trusted: Lean kernel; axioms propext/Classical.choice/Quot.sound; translator flags (Gen/Flags.lean), harness + ./check; library semantics modelled not verified (tokio mpsc/oneshot/semaphore hand-off, tokio-util DelayQueue timer wheel, futures Abortable/Fuse); one poll = one atomic step; executor drops a completed dispatch / the application stops at the first error item. ',
         technique='Lean 4 per-event wake theorems + woken-only differential execution to quiescence (settle) on model and implementation', design='8/C02'),
-    'C03': dict(text="Lean 4 theorems over the client model: the dequeue loop never yields a request whose receiver is closed; a Cancel is written only for an id that was in flight (and removes it), hence at most once and only after its Request; the guard closes the receiver before queueing the cancel at every yield point (hook); run-level invariants over all op sequences as listed in evidence.theorems. Tie: exact correspondence incl. drops interleaved with the dispatch at the guard's three yield points; the C03 monitor (request after abandonment, cancel preconditions, cancel owed after a writable poll) runs on the implementation's trace.",
+    'C03': dict(text="Lean 4 theorems over the client model: the dequeue loop never yields a request whose receiver is closed; a Cancel is written only for an id that was in flight (and removes it), hence at most once and only after its Request; the guard closes the receiver before queueing the cancel at every yield point (hook); the third clause — after a dispatch poll that goes idle with the transport writable throughout, every abandoned, transmitted, unfinished call has its Cancel on the wire — is proved as acceptance of the full monitor on every model trace (C03_cancel_owed); run-level invariants over all op sequences as listed in evidence.theorems. Tie: exact correspondence incl. drops interleaved with the dispatch at the guard's three yield points; the C03 monitor (request after abandonment, cancel preconditions, cancel owed after a writable poll) runs on the implementation's trace.",
         note='Trusted: Lean kernel; axioms propext/Classical.choice/Quot.sound; translator flags (Gen/Flags.lean), harness + ./check; library semantics modelled not verified (tokio mpsc/oneshot/semaphore hand-off, tokio-util DelayQueue timer wheel, futures Abortable/Fuse); one poll = one atomic step; executor drops a completed dispatch / the application stops at the first error item. ',
         technique='Lean 4 invariant proofs over the client model + correspondence with hook-interleaved drops + monitor on implementation traces', design='8/C03'),
     'C04': dict(text="Lean 4 theorems over the server model: a Cancel for a tracked id sets exactly that execution's abort flag, forgets the entry and its timer and nothing else; for an untracked id it is the identity; an aborted execution never polls its handler nor queues a response; cascade down a chain of any depth by induction (Chain model). Tie: exact correspondence of the server model (cancel at every position relative to handler start/completion/response buffering/write, with and without limit, sink stalls); chain family with real 1-3 hop client/server chains; C04 monitor on implementation traces.",
         note='Trusted: Lean kernel; axioms propext/Classical.choice/Quot.sound; translator flags (Gen/Flags.lean), harness + ./check; library semantics modelled not verified (tokio mpsc/oneshot/semaphore hand-off, tokio-util DelayQueue timer wheel, futures Abortable/Fuse); one poll = one atomic step; executor drops a completed dispatch / the application stops at the first error item. ',
         technique='Lean 4 mechanism + induction proofs + model/implementation correspondence (single hop exact, chains abstract)', design='8/C04'),
-    'C05': dict(text="Lean 4 theorems over the client model and the DelayQueue (timer-wheel) model: a DeadlineExceeded outcome is produced only at a virtual time >= the call's deadline (never early), for every deadline (incl. those beyond the one-year timer clamp: the timer is re-armed), queueing delay and clock stepping; the armed timeout is min(deadline - transmission time, clamp) with the rest remembered. The not-late clause is monitor + correspondence only (DelayQueue completeness is not proved). Tie: exact correspondence under a virtual clock (verif-hooks) with clock steps landing 1 ns before / at / after timer ticks; C05 monitor (never early; reply before deadline wins; expired by the first dispatch poll at or after the tick).",
+    'C05': dict(text="Lean 4 theorems over the client model and the DelayQueue (timer-wheel) model: a DeadlineExceeded outcome is produced only at a virtual time >= the call's deadline (never early), for every deadline (incl. those beyond the one-year timer clamp: the timer is re-armed), queueing delay and clock stepping; the armed timeout is min(deadline - transmission time, clamp) with the rest remembered. Not late: completeness of the timer-wheel emulation is proved (C05_delayq_complete, under a range that tarpc's one-year clamp guarantees below 2^35 ms of connection age) and bridged to the client: after a dispatch poll that goes idle no in-flight request's timer tick is at or before now and the wake-up is armed no later than the earliest tick; the timer tick of every request is exactly ceil_ms(deadline) also after re-arms (exact due-time accounting). Tie: exact correspondence under a virtual clock (verif-hooks) with clock steps landing 1 ns before / at / after timer ticks; C05 monitor (never early; reply before deadline wins; expired by the first dispatch poll at or after the tick).",
         note='Trusted: Lean kernel; axioms propext/Classical.choice/Quot.sound; translator flags (Gen/Flags.lean), harness + ./check; library semantics modelled not verified (tokio mpsc/oneshot/semaphore hand-off, tokio-util DelayQueue timer wheel, futures Abortable/Fuse); one poll = one atomic step; executor drops a completed dispatch / the application stops at the first error item. ',
         technique='Lean 4 invariant proof (timer entries never earlier than deadlines) + virtual-time correspondence + monitor', design='8/C05'),
-    'C06': dict(text='Lean 4 theorems over the server model: expiry aborts only at now >= deadline (never early, incl. deadlines beyond the one-year timer clamp: the timer is re-armed); expiry touches only the expired request; a channel poll that goes idle ended with a timer-queue poll that reported nothing expired (the aborts-at-deadline clause is partial: DelayQueue completeness is not proved); witness theorem for the limiter stall (known finding). Tie: exact correspondence under a virtual clock; C06 monitor on implementation traces; the stall finding is matched by signature and reported as KNOWN-FINDING.',
+    'C06': dict(text='Lean 4 theorems over the server model: expiry aborts only at now >= deadline (never early, incl. deadlines beyond the one-year timer clamp: the timer is re-armed); expiry touches only the expired request; aborts at the deadline: an idle basePollNext / an idle unlimited Requests::poll_next leaves no tracked request with its timer tick at or before now (DelayQueue completeness proved and bridged, clock below 2^35 ms); witness theorem for the limiter stall (known finding). Tie: exact correspondence under a virtual clock; C06 monitor on implementation traces; the stall finding is matched by signature and reported as KNOWN-FINDING.',
         note='Trusted: Lean kernel; axioms propext/Classical.choice/Quot.sound; translator flags (Gen/Flags.lean), harness + ./check; library semantics modelled not verified (tokio mpsc/oneshot/semaphore hand-off, tokio-util DelayQueue timer wheel, futures Abortable/Fuse); one poll = one atomic step; executor drops a completed dispatch / the application stops at the first error item. ',
         technique='Lean 4 invariant proofs + virtual-time correspondence + monitor; known finding by signature', design='8/C06'),
     'C08': dict(text='Lean 4 theorems over the server model: a response is written only while its id is tracked and that untracks it (at most one per accepted request, none for ids never read); a request whose id is tracked is ignored without any state change; run-level statements as listed in evidence.theorems. Tie: exact correspondence on peer streams with fresh ids, duplicates while in flight, ids re-used after completion, cancels, closes, every completion order; C08 monitor.',
@@ -153,7 +153,7 @@ SYS = {
     'C10': dict(text='Lean 4 theorems: the client calls poll_close only with both queues closed and drained; after inbound EOF the dispatch completes in that poll; the server stream ends only with inbound closed, nothing in flight and nothing unflushed. Tie: correspondence with handle drop / peer close at every point; C10 monitors.',
         note='Trusted: Lean kernel; axioms propext/Classical.choice/Quot.sound; translator flags (Gen/Flags.lean), harness + ./check; library semantics modelled not verified (tokio mpsc/oneshot/semaphore hand-off, tokio-util DelayQueue timer wheel, futures Abortable/Fuse); one poll = one atomic step; executor drops a completed dispatch / the application stops at the first error item. ',
         technique='Lean 4 control-flow proofs + correspondence + monitors', design='8/C10'),
-    'C11': dict(text='Lean 4 theorems: client in-flight table never exceeds max_in_flight_requests; on both ends the armed timers and the table always have the same keys (every removal path removes the timer): the verif-hooks counters are always equal. Tie: correspondence incl. the hook counters; C11 monitors (bound; table = timers; reclaimed when idle / equality with the yielded-and-unfinished requests at idle polls); server stall finding reported as KNOWN-FINDING.',
+    'C11': dict(text='Lean 4 theorems: client in-flight table never exceeds max_in_flight_requests; on both ends the armed timers and the table always have the same keys (every removal path removes the timer): the verif-hooks counters are always equal; the full client monitor incl. the reclaim clause accepts every model trace (C11_monitor_full_accepts). Tie: correspondence incl. the hook counters; C11 monitors (bound; table = timers; reclaimed when idle / equality with the yielded-and-unfinished requests at idle polls); server stall finding reported as KNOWN-FINDING.',
         note='Trusted: Lean kernel; axioms propext/Classical.choice/Quot.sound; translator flags (Gen/Flags.lean), harness + ./check; library semantics modelled not verified (tokio mpsc/oneshot/semaphore hand-off, tokio-util DelayQueue timer wheel, futures Abortable/Fuse); one poll = one atomic step; executor drops a completed dispatch / the application stops at the first error item. ',
         technique='Lean 4 invariant proofs + correspondence incl. hook counters + monitors; known finding by signature', design='8/C11'),
     'C12': dict(text='Lean 4 theorems over the limiter model: a request is handed out only with at most L in flight including itself; a refused request gets exactly the throttle reply and never becomes an execution; a refusal happens only in a poll that began at the limit; witness theorem for the over-throttle (known finding: refused although fewer than L in flight when read). Tie: correspondence with limits 0-2 and mixed request/cancel batches; C12 monitor; the over-throttle finding is matched by signature.',
